@@ -7,7 +7,8 @@ const char* const H_PROPERTY = "C17";
 
 #define MAXTH 4
 #define MAXIT 5
-static work_queue_t wq;
+static work_queue_t* wq_p; /* heap memory with arbitrary previous contents */
+#define wq (*wq_p)
 static int nth, nitems[MAXTH], yield_mask;
 static uint64_t clk;
 /* ghost */
@@ -21,8 +22,12 @@ static struct {
 static int nint;
 static int handed_total;
 
-static NS uint64_t g_tick(void) { return ++clk; }
+static NS uint64_t g_tick(void) {
+  sim_tso_sync();
+  return ++clk;
+}
 static NS void g_push_returned(int t, int i, int start) {
+  sim_tso_sync();
   item[t][i].push_ret = ++clk;
   if (start) {
     interval[nint].start = clk;
@@ -32,6 +37,7 @@ static NS void g_push_returned(int t, int i, int start) {
 }
 static NS int g_worker_begin(void) { return nint++; }
 static NS void g_handed(long v) {
+  sim_tso_sync();
   int t = (int)(v >> 8) - 1, i = (int)(v & 0xff) - 1;
   if (t < 0 || t >= nth || i < 0 || i >= nitems[t]) sim_violation("C17-invented-item", "get_work returned %#lx which was never pushed", v);
   if (item[t][i].handed) sim_violation("C17-handed-out-twice", "item %d of thread %d handed to a worker twice", i, t);
@@ -40,6 +46,7 @@ static NS void g_handed(long v) {
   sim_progress();
 }
 static NS void g_empty(int iv, uint64_t invoked_at) {
+  sim_tso_sync();
   /* EMPTY is illegal if an item whose push returned before this get_work was invoked is still queued */
   for (int t = 0; t < nth; t++)
     for (int i = 0; i < nitems[t]; i++)
@@ -86,6 +93,8 @@ void h_run(void) {
   yield_mask = wl_int(0, 255);
   sim_describe("threads=%d items=%d preempt=1/%d", nth, total, c.preempt_inv);
   sim_nontrivial();
+  wq_p = h_dirty_alloc(sizeof *wq_p);
+  if (wl_pct(40)) sim_tso_enable_plain();
   work_queue_init(&wq);
   pthread_t th[MAXTH];
   for (int t = 0; t < nth; t++) pthread_create(&th[t], NULL, thr, (void*)(intptr_t)t);
